@@ -30,3 +30,13 @@
 mod x25519;
 
 pub use crate::x25519::*;
+
+// Verification hook (off unless built with `--cfg curve25519_dalek_verif`): includes harness /
+// wrapper code kept outside the repository.  Adds nothing to normal builds.
+#[cfg(curve25519_dalek_verif)]
+#[allow(unexpected_cfgs, missing_docs, dead_code, unused_imports, unused_qualifications)]
+#[allow(clippy::all)]
+#[doc(hidden)]
+pub mod verif_hooks {
+    include!(env!("X25519_DALEK_VERIF_INCLUDE"));
+}
